@@ -20,8 +20,26 @@ import (
 	"golang.org/x/tools/go/ssa"
 )
 
+// repoDir is the tree under test: /repo, or a scratch worktree given in VERIF_REPO
+// (used only by seedtest.py to check seeded changes without touching /repo).
+var repoDir = func() string {
+	if d := os.Getenv("VERIF_REPO"); d != "" {
+		return d
+	}
+	return "/repo"
+}()
+
+// outDir is where evidence and kept replays go: /verif, or a scratch directory for VERIF_REPO runs.
+var outDir = func() string {
+	if os.Getenv("VERIF_REPO") != "" {
+		d := filepath.Join(os.TempDir(), fmt.Sprintf("gosym-alt-%d", os.Getpid()))
+		os.MkdirAll(d, 0o755)
+		return d
+	}
+	return "/verif"
+}()
+
 const (
-	repoDir   = "/repo"
 	verifDir  = "/verif"
 	modPath   = "github.com/AdguardTeam/urlfilter"
 	harnessIn = "/verif/harness"
@@ -95,6 +113,7 @@ type JobResult struct {
 	Terms    int
 	Outside  map[string]int
 	Traces   [][]sym.SyncEvent
+	CrossChecked, CrossUnknown int
 }
 
 var curRun *RunCtx
@@ -315,6 +334,7 @@ func (rc *RunCtx) runJob(j Job) (res *JobResult) {
 		res.Terms = e.TT.NumTerms()
 		res.Outside = e.Outside
 		res.Traces = e.Traces
+		res.CrossChecked, res.CrossUnknown = e.CrossChecked, e.CrossUnknown
 		for f := range e.Encoded {
 			res.Encoded = append(res.Encoded, f)
 		}
@@ -334,6 +354,14 @@ func (rc *RunCtx) runJob(j Job) (res *JobResult) {
 	e.Deadline = time.Now().Add(time.Duration(maxSecs) * time.Second)
 	e.Trace = os.Getenv("GOSYM_TRACE") != ""
 	e.Ctx["known"] = rc.Known
+	e.CrossSolver = "cvc5"
+	e.CrossEvery = 97
+	if rc.Tier == "thorough" {
+		e.CrossEvery = 23
+	}
+	if v, err := strconv.Atoi(os.Getenv("GOSYM_CROSS")); err == nil {
+		e.CrossEvery = v
+	}
 	if os.Getenv("GOSYM_FORKS") != "" {
 		e.ForkSites = map[string]int{}
 		go func() {
@@ -578,7 +606,7 @@ func (rc *RunCtx) processEvents() {
 		switch o.ro.outcome {
 		case "violation":
 			// keep the replay
-			keep := filepath.Join(verifDir, "replays", rc.Spec.ID, digest(o.c.r.Job.Name(), o.c.ev.Label, fmt.Sprint(o.c.ev.Model)))
+			keep := filepath.Join(outDir, "replays", rc.Spec.ID, digest(o.c.r.Job.Name(), o.c.ev.Label, fmt.Sprint(o.c.ev.Model)))
 			ro2 := rc.replayNative(o.c.r.Job, o.c.ev.Model, keep)
 			detail := extractRules(ro2.output)
 			rc.Violations = append(rc.Violations, Violation{Label: o.c.ev.Label, Job: o.c.r.Job.Name(), Replay: filepath.Join(keep, "run.sh"), Detail: detail})
@@ -753,6 +781,7 @@ func (rc *RunCtx) writeEvidenceFull(code int, nValidated int) {
 	reach := map[string]int{}
 	var jobs []map[string]interface{}
 	incomplete := 0
+	crossChecked, crossUnknown := 0, 0
 	for _, r := range rc.Results {
 		tot.Steps += r.Stats.Steps
 		tot.Forks += r.Stats.Forks
@@ -791,6 +820,8 @@ func (rc *RunCtx) writeEvidenceFull(code int, nValidated int) {
 		if r.Err != "" {
 			incomplete++
 		}
+		crossChecked += r.CrossChecked
+		crossUnknown += r.CrossUnknown
 		jobs = append(jobs, map[string]interface{}{"job": r.Job.Name(), "paths": r.Stats.Paths, "forks": r.Stats.Forks, "merges": r.Stats.Merges,
 			"solver_queries": r.Solver.Queries, "solver_s": round3(r.Solver.Seconds), "wall_s": round3(r.Seconds), "terms": r.Terms,
 			"assert_queries": r.Stats.AssertQueries, "error": r.Err})
@@ -852,6 +883,7 @@ func (rc *RunCtx) writeEvidenceFull(code int, nValidated int) {
 		"assertions":                    assertList,
 		"assert_queries":                map[string]int{"total": tot.AssertQueries, "unsat_holds": tot.AssertUnsat, "sat_violated": tot.AssertSat, "unknown": tot.AssertUnknown},
 		"solver":                        map[string]interface{}{"kind": solverKind(), "queries": sol.Queries, "sat": sol.Sat, "unsat": sol.Unsat, "unknown": sol.Unknown, "seconds": round3(sol.Seconds)},
+		"cross_solver":                  map[string]interface{}{"solver": "cvc5 1.0 (standalone, identical SMT-LIB text)", "assertion_queries_rechecked": crossChecked, "agreed": crossChecked - crossUnknown, "second_solver_unknown": crossUnknown, "disagreements": countContaining(rc.Infra, "solver disagreement")},
 		"stubs_and_intrinsics_used":     stubs,
 		"reachability_witnesses":        reach,
 		"known_findings_active":         keysOf(rc.Known),
@@ -870,8 +902,8 @@ func (rc *RunCtx) writeEvidenceFull(code int, nValidated int) {
 		"violations":  len(rc.Violations),
 	}
 	b, _ := json.MarshalIndent(ev, "", " ")
-	os.MkdirAll(filepath.Join(verifDir, "evidence"), 0o755)
-	os.WriteFile(filepath.Join(verifDir, "evidence", rc.Spec.ID+".json"), b, 0o644)
+	os.MkdirAll(filepath.Join(outDir, "evidence"), 0o755)
+	os.WriteFile(filepath.Join(outDir, "evidence", rc.Spec.ID+".json"), b, 0o644)
 }
 
 func solverKind() string {
@@ -896,6 +928,16 @@ func round3(f float64) float64 { return float64(int(f*1000+0.5)) / 1000 }
 func max1(n int) int {
 	if n < 1 {
 		return 1
+	}
+	return n
+}
+
+func countContaining(xs []string, sub string) int {
+	n := 0
+	for _, x := range xs {
+		if strings.Contains(x, sub) {
+			n++
+		}
 	}
 	return n
 }
